@@ -55,11 +55,20 @@ type staticE struct {
 	A  K0
 }
 
+// the marker reachable only through a nested embedded struct: this struct does not embed the marker itself, so it is an
+// ordinary type (its embedded carrier being a value named after its type if the struct were a marker struct)
+type EmbCarrier struct{ am.Struct }
+type staticF struct {
+	EmbCarrier
+	A K0
+	B K1 `argmapper:"bee"`
+}
+
 var staticStructs = []reflect.Type{reflect.TypeOf(staticA{}), reflect.TypeOf(staticB{}), reflect.TypeOf(staticC{}),
 	reflect.TypeOf(staticD{}), reflect.TypeOf(staticE{})}
 
 var fieldNames = []string{"A", "B", "Cc", "Dx", "Name", "VALUE", "Xy", "Zed"}
-var tagNames = []string{"", "", "x", "Foo", "bAr", "a"}
+var tagNames = []string{"", "", "x", "Foo", "bAr", "a", "Äpfel", "École"}
 var tagOpts = []string{"typeOnly", "subtype=a", "subtype=b=c", "subtype=", "subType=z", "typeonly", "junk", "subtype=Q", "typeOnly=1"}
 
 func randTag(r *rng) string {
@@ -128,9 +137,23 @@ func describeParam(t reflect.Type) string {
 		if f.Anonymous && f.Type == markerType {
 			m = 1
 		}
-		fs = append(fs, fmt.Sprintf("%s|%s|%d|%d|%d", f.Name, e2s(f.Tag.Get("argmapper")), tyID(f.Type), x, m))
+		tag := f.Tag.Get("argmapper")
+		if i := strings.Index(tag+",", ","); i > 0 && !isASCII(tag[:i]) {
+			// the model folds case for ASCII letters only: a name with other letters is handed over already folded
+			tag = strings.ToLower(tag[:i]) + tag[i:]
+		}
+		fs = append(fs, fmt.Sprintf("%s|%s|%d|%d|%d", f.Name, e2s(tag), tyID(f.Type), x, m))
 	}
 	return fmt.Sprintf("S:%d:%d:[%s]", tyID(t), depth, strings.Join(fs, ";"))
+}
+
+func isASCII(s string) bool {
+	for i := 0; i < len(s); i++ {
+		if s[i] >= 0x80 {
+			return false
+		}
+	}
+	return true
 }
 
 func isPool(t reflect.Type) bool {
@@ -212,6 +235,9 @@ func randParamList(r *rng, size int) []reflect.Type {
 		}
 		return ts
 	default: // single struct without marker: an ordinary type
+		if r.chance(1, 6) {
+			return []reflect.Type{reflect.TypeOf(staticF{})}
+		}
 		return []reflect.Type{randMarkerStruct(r, size, false)}
 	}
 }
@@ -296,8 +322,22 @@ func genSig(w *bufio.Writer, r *rng, id, size int) {
 		}
 		fmt.Fprintf(w, "list %s\n", lst)
 	default:
-		fmt.Fprintf(w, "impl ok\niv %s\nov %s\nilk %s\nolk %s\n", valuesStr(fn.Input().Values()), valuesStr(fn.Output().Values()),
-			lookupsStr(fn.Input()), lookupsStr(fn.Output()))
+		// what Values() hands out belongs to the caller: scribbling over it must not change a second look
+		first := valuesStr(fn.Input().Values()) + " / " + valuesStr(fn.Output().Values())
+		for _, vs := range [][]am.Value{fn.Input().Values(), fn.Output().Values()} {
+			for i := range vs {
+				vs[i].Name, vs[i].Subtype = "scribble", "scribble"
+			}
+			for i, j := 0, len(vs)-1; i < j; i, j = i+1, j-1 {
+				vs[i], vs[j] = vs[j], vs[i]
+			}
+		}
+		relook := "same"
+		if valuesStr(fn.Input().Values())+" / "+valuesStr(fn.Output().Values()) != first {
+			relook = "changed"
+		}
+		fmt.Fprintf(w, "impl ok\niv %s\nov %s\nilk %s\nolk %s\nrelook %s\n", valuesStr(fn.Input().Values()), valuesStr(fn.Output().Values()),
+			lookupsStr(fn.Input()), lookupsStr(fn.Output()), relook)
 		// Signature() of both sets (used by BuildFunc): positional sets index by type map
 		var sig string
 		ps := recovered(func() {
